@@ -487,3 +487,118 @@ Example split_dir_base_windows_examples :
   /\ dir W [92;92;104;92;115]%N = [92;92;104;92;115]%N
   /\ base W [67;58]%N = [92]%N /\ dir W [67;58]%N = [67;58;46]%N.
 Proof. vm_compute. repeat split. Qed.
+
+(* ================================================================================== *)
+(* Join                                                                               *)
+(* ================================================================================== *)
+(* how joinWindows appends one element [e] to a non-empty builder [b] *)
+Definition glue (b e : str) : str :=
+  if is_slash (last b 0%N) then
+    (* no second separator: the leading separators of e are dropped (no UNC path out of non-UNC elements);
+       `\` followed by `??` gets `.\` in between (no Root Local Device path) *)
+    let e' := strip_slashes e in
+    (if Nat.eqb (length b) 1 && has_prefix_qq e' then b ++ [DOT; BSLASH] else b) ++ e'
+  else if N.eqb (last b 0%N) COLON then b ++ e        (* `C:` + `a` = `C:a`, relative to the drive *)
+  else b ++ [BSLASH] ++ e.
+
+Lemma last_app_ne_own (l l' : str) : l' <> [] -> last (l ++ l') 0%N = last l' 0%N.
+Proof.
+  intros Hne. rewrite (app_removelast_last 0%N Hne) at 1. rewrite app_assoc. apply last_last.
+Qed.
+
+Lemma glue_nonempty b e : b <> [] -> glue b e <> [].
+Proof.
+  intros Hb. unfold glue. destruct (is_slash (last b 0%N)).
+  - destruct (Nat.eqb (length b) 1 && has_prefix_qq (strip_slashes e)); destruct b; try congruence; discriminate.
+  - destruct (N.eqb (last b 0%N) COLON); destruct b; try congruence; discriminate.
+Qed.
+
+Lemma jw_step_glue (e : str) (rest : list str) (b : str) :
+  b <> [] ->
+  join_windows_loop (e :: rest) b (last b 0%N) = join_windows_loop rest (glue b e) (last (glue b e) 0%N).
+Proof.
+  intros Hb. cbn [join_windows_loop]. destruct b as [|b0 b']; [congruence|]. set (b := b0 :: b') in *.
+  unfold glue. unfold last_byte. destruct (is_slash (last b 0%N)) eqn:Hs.
+  - set (e' := strip_slashes e).
+    set (b1 := if Nat.eqb (length b) 1 && has_prefix_qq e' then b ++ [DOT; BSLASH] else b).
+    cbv zeta. destruct e' as [|x e''] eqn:Ee.
+    + assert (Eb1 : b1 = b) by (unfold b1; rewrite andb_false_r; reflexivity).
+      rewrite Eb1, app_nil_r. reflexivity.
+    + rewrite last_app_ne_own by discriminate. reflexivity.
+  - destruct (N.eqb (last b 0%N) COLON) eqn:Hc.
+    + destruct e as [|x e']; [rewrite app_nil_r; reflexivity|]. rewrite last_app_ne_own by discriminate. reflexivity.
+    + destruct e as [|x e'].
+      * cbn [app]. rewrite last_app_ne_own by discriminate. reflexivity.
+      * rewrite <- app_assoc. rewrite (@last_app_ne_own b ([BSLASH] ++ x :: e')) by discriminate.
+        change ([BSLASH] ++ x :: e') with ([BSLASH] ++ (x :: e')). rewrite last_app_ne_own by discriminate. reflexivity.
+Qed.
+
+Lemma jw_fold : forall (rest : list str) (b : str), b <> [] ->
+  join_windows_loop rest b (last b 0%N) = fold_left glue rest b.
+Proof.
+  induction rest as [|e rest IH]; intros b Hb; [reflexivity|].
+  rewrite (jw_step_glue e rest Hb). cbn [fold_left]. apply IH. apply glue_nonempty. exact Hb.
+Qed.
+
+Lemma fold_glue_nonempty : forall (rest : list str) (b : str), b <> [] -> fold_left glue rest b <> [].
+Proof. induction rest as [|e rest IH]; intros b Hb; [exact Hb|]. cbn [fold_left]. apply IH, glue_nonempty, Hb. Qed.
+
+(* Join: empty leading elements are skipped, the first non-empty one is taken as it is (it alone may bring
+   a volume), the others are glued on, the result is cleaned *)
+Theorem join_windows_fold (elems : list str) :
+  join W elems = match drop_empty_prefix elems with
+                 | [] => []
+                 | x :: rest => clean W (fold_left glue rest x)
+                 end.
+Proof.
+  unfold join. assert (H : forall lc, join_windows_loop elems [] lc =
+                         match drop_empty_prefix elems with [] => [] | x :: rest => fold_left glue rest x end).
+  { induction elems as [|e elems IH]; intros lc; [reflexivity|]. cbn [join_windows_loop drop_empty_prefix].
+    destruct e as [|x e']; [apply IH|]. cbn [app]. unfold last_byte. apply jw_fold. discriminate. }
+  rewrite H. destruct (drop_empty_prefix elems) as [|x rest] eqn:E; [reflexivity|].
+  assert (Hx : x <> []).
+  { clear H. induction elems as [|e elems IH]; [discriminate|]. cbn [drop_empty_prefix] in E.
+    destruct e; [apply IH; exact E|injection E as <- _; discriminate]. }
+  pose proof (fold_glue_nonempty rest Hx) as Hne. destruct (fold_left glue rest x); [congruence|reflexivity].
+Qed.
+
+(* elements that are non-empty and end neither with a separator nor with ':' are joined with '\' *)
+Definition plain_elem (e : str) : Prop :=
+  e <> [] /\ is_slash (last e 0%N) = false /\ last e 0%N <> COLON.
+
+Lemma fold_glue_plain : forall (rest : list str) (x : str),
+  plain_elem x -> Forall plain_elem rest -> fold_left glue rest x = intercalate [BSLASH] (x :: rest).
+Proof.
+  induction rest as [|e rest IH]; intros x Hx Hr; [reflexivity|].
+  inversion Hr as [|? ? He Hr']; subst. cbn [fold_left].
+  assert (Eg : glue x e = x ++ [BSLASH] ++ e).
+  { unfold glue. destruct Hx as (_ & H1 & H2). rewrite H1. apply N.eqb_neq in H2. rewrite H2. reflexivity. }
+  rewrite Eg. rewrite IH; auto.
+  - rewrite !intercalate_cons. rewrite <- !app_assoc. reflexivity.
+  - destruct He as (He1 & He2 & He3). repeat split.
+    + destruct x; discriminate.
+    + rewrite last_app_ne_own by discriminate. change ([BSLASH] ++ e) with ([BSLASH] ++ e).
+      rewrite last_app_ne_own by exact He1. exact He2.
+    + rewrite last_app_ne_own by discriminate. rewrite last_app_ne_own by exact He1. exact He3.
+Qed.
+
+Theorem join_windows_plain (x : str) (rest : list str) :
+  plain_elem x -> Forall plain_elem rest -> join W (x :: rest) = clean W (intercalate [BSLASH] (x :: rest)).
+Proof.
+  intros Hx Hr. rewrite join_windows_fold. destruct x as [|c x']; [destruct Hx; congruence|].
+  cbn [drop_empty_prefix]. rewrite fold_glue_plain; auto.
+Qed.
+
+(* Join ignores empty elements up to a trailing separator that Clean removes: here, exactly *)
+Theorem join_windows_empty_prefix (elems : list str) : join W ([] :: elems) = join W elems.
+Proof. rewrite !join_windows_fold. reflexivity. Qed.
+
+(* Join("C:", "a") = "C:a" ; Join("C:\", "\a") = "C:\a" ; Join("\", "??", "x") = "\.\??\x" ;
+   Join("\\h", "s", "..", "x") = "\\h\s\x" (the UNC volume is kept) ; Join("a", "", "b") = "a\b" *)
+Example join_windows_examples :
+  join W [[67;58]; [97]]%N = [67;58;97]%N
+  /\ join W [[67;58;92]; [92;97]]%N = [67;58;92;97]%N
+  /\ join W [[92]; [63;63]; [120]]%N = [92;46;92;63;63;92;120]%N
+  /\ join W [[92;92;104]; [115]; [46;46]; [120]]%N = [92;92;104;92;115;92;120]%N
+  /\ join W [[97]; []; [98]]%N = [97;92;98]%N.
+Proof. vm_compute. repeat split. Qed.
